@@ -498,8 +498,8 @@ theorem canon_variant_inv {env : Env} {m : Nat} {l : Label} {v2 : Val} {i : Nat}
       exact ⟨m, hv⟩
 
 /-- **on canonical values the coercion only ever reports a value, a subtype failure or an exhausted budget** -/
-theorem coerce_regular (env : Env) (hg : GoodEnv env) : ∀ (fuel : Nat) (w e : Ty) (v : Val) (n : Nat),
-    goodTy env w = true → goodTy env e = true → canon env n v w = true → Reg (coerce env true env fuel w e v) := by
+theorem coerce_regular (env : Env) (hg : GoodEnv env) (mu : Bool) : ∀ (fuel : Nat) (w e : Ty) (v : Val) (n : Nat),
+    goodTy env w = true → goodTy env e = true → canon env n v w = true → Reg (coerce env mu env fuel w e v) := by
   intro fuel
   induction fuel with
   | zero => intro w e v n _ _ _; simp [coerce, Reg]
@@ -544,7 +544,7 @@ theorem coerce_regular (env : Env) (hg : GoodEnv env) : ∀ (fuel : Nat) (w e : 
         simp only [canon] at hm
         cases x <;> simp at hm
       · split
-        · simp [Reg]
+        · cases mu <;> simp [Reg]
         · exact (snd_catch _ (ih w' e2 v (m + 1) hw' he2 hm)).reg
     | vec e2 =>
       simp only []
@@ -649,9 +649,9 @@ theorem canon_empty_false (env : Env) (m : Nat) (v : Val) : canon env m v (.prim
 
 /-- **a canonical value of a subtype always coerces to the supertype**: with `w <: e` in the specification relation
 the coercion returns a value — the only other outcome is an exhausted depth budget -/
-theorem coerce_sound (env : Env) (hg : GoodEnv env) : ∀ (fuel : Nat) (w e : Ty) (v : Val) (n : Nat),
+theorem coerce_sound (env : Env) (hg : GoodEnv env) (mu : Bool) : ∀ (fuel : Nat) (w e : Ty) (v : Val) (n : Nat),
     goodTy env w = true → goodTy env e = true → canon env n v w = true → Sub env w e →
-    Snd (coerce env true env fuel w e v) := by
+    Snd (coerce env mu env fuel w e v) := by
   intro fuel
   induction fuel with
   | zero => intro w e v n _ _ _ _; simp [coerce, Snd]
@@ -710,14 +710,14 @@ theorem coerce_sound (env : Env) (hg : GoodEnv env) : ∀ (fuel : Nat) (w e : Ty
       · rename_i w2 v2
         have hw2 := good_opt hw'
         have hc2 : canon env m v2 w2 = true := by simpa [canon] using hm
-        exact snd_catch _ (coerce_regular env hg fuel w2 e2 v2 m hw2 he2 hc2)
+        exact snd_catch _ (coerce_regular env hg mu fuel w2 e2 v2 m hw2 he2 hc2)
       · rename_i t x hnone hopt
         exfalso
         simp only [canon] at hm
         cases x <;> simp at hm
       · split
-        · simp [Snd]
-        · exact snd_catch _ (coerce_regular env hg fuel w' e2 v (m + 1) hw' he2 hm)
+        · cases mu <;> simp [Snd]
+        · exact snd_catch _ (coerce_regular env hg mu fuel w' e2 v (m + 1) hw' he2 hm)
     | vec e2 =>
       have hhead := sub_head hsub' hnw hne hwemp (by simp) (by intro b' hb; cases hb) hshw' hshe'
       have he2 := good_vec he'
@@ -797,7 +797,7 @@ theorem coerce_sound (env : Env) (hg : GoodEnv env) : ∀ (fuel : Nat) (w e : Ty
         simp only [] at hpi
         unfold optLike at hpi
         have hgoal : ∀ (o : Option Val), Snd (match o, (none : Option Ty) with
-            | some fv, some wt => Outcome.map (fun v' => (p.1, v')) (coerce env true env fuel wt p.2 fv)
+            | some fv, some wt => Outcome.map (fun v' => (p.1, v')) (coerce env mu env fuel wt p.2 fv)
             | _, _ => match traceFull env p.2 with
               | some (.opt _) => Outcome.ok (p.1, Val.none)
               | some (.prim .null) => .ok (p.1, .null)
